@@ -159,7 +159,7 @@ def make_grid(rng, kind, n):
 
 
 def gen_cases(tier, seed):
-    n = 30 if tier == "quick" else 1000
+    n = 120 if tier == "quick" else 1000
     cases = [{"id": "b/%04d" % k, "batch": k, "seed": seed, "n": 20, "group": "b%d" % k} for k in range(n)]
     cases.append({"id": "directmodel", "kind": "dm", "seed": seed, "group": "dm", "cost": 10})
     return cases
